@@ -8,6 +8,7 @@ ROOT = os.path.dirname(os.path.dirname(os.path.abspath(__file__)))
 E1 = 'vf/engine/explore.py'
 CHECKS = {}
 NOT_YET = {}
+HOLD = {'C02', 'C04', 'C05', 'C11', 'C03', 'C06', 'C09', 'C14', 'C19'}  # built but not yet passing on the unchanged tree / not yet validated: not claimed
 
 
 def check(pid, category, text, note, technique, engine, design_ref):
@@ -37,6 +38,158 @@ check(
 )
 
 
+check(
+    'C03',
+    'model_checking',
+    'Truth: on every configuration of a deviation ball (radius 1 quick / 2 thorough, 15 dimensions, three bases) every residual the real run reports at '
+    'post_sweep / post_iteration / post_step is recomputed from the node values held at that moment with an independent Q and operator. Soundness: every '
+    'sequence of residual answers (K in 0..4, P<=3, L<=2) plus <=1-2 forced flags is enumerated on the real controller and the stopping rule, budget and '
+    'logged iteration count are compared with a reference model on each execution.',
+    'Trusted: numpy polynomial integration for Q; the scripted sweeper only overwrites the residual value in IT_CHECK on the finest level. imex_1st_order_mass not covered (needs FEniCS).',
+    'exhaustive configuration-ball enumeration with independent defect oracle + stateless exhaustive choice-tree exploration against a reference model',
+    'E1',
+    'DESIGN.md section 2 C03',
+)
+check(
+    'C06',
+    'model_checking',
+    'Every member of a (t0, dt, Tend formation, remainder, P, L) lattice is run on the real controller and the accepted steps are checked for exact tiling, '
+    'bitwise value chaining, start < Tend, reaching Tend, return value and an exact-rational step count; the same clauses are evaluated on every restart / '
+    'step-size history the C09 harness explores within its deviation bound.',
+    'Trusted: the recorder hook; step-count reference in exact rational arithmetic with the admissible range ceil(x-delta)..ceil(x).',
+    'exhaustive lattice enumeration + deviation-bounded exhaustive exploration of environment scripts on the real controller',
+    'E1',
+    'DESIGN.md section 2 C06',
+)
+check(
+    'C08',
+    'model_checking',
+    'The real controller_MPI, generic_implicit_MPI / imex_1st_order_MPI, base_transfer_MPI and the MPI flavours of the convergence controllers run on a '
+    'simulated mpi4py whose scheduler is driven by the explorer: the canonical schedule on a configuration ball under 2-4 completion modes, every rejection '
+    'script with <=1-3 rejections, and every schedule with <=1 (thorough: <=2 on the smallest) deviations on the base configurations; each execution is '
+    'compared with the serial counterpart and checked for deadlock, unmatched receives, collective mismatch and send buffers modified before completion.',
+    'Trusted: the simulator (vf/engine/simmpi.py) models the MPI semantics stated in its docstring; ranks are threads of one interpreter. Real network timing, NCCL, MPI-IO and the interrupt-based iteration estimator are not covered.',
+    'preemption/deviation-bounded exhaustive schedule exploration of the real MPI classes on a simulated MPI, differential oracle against the serial implementation',
+    'E3',
+    'DESIGN.md section 2 C08',
+)
+check(
+    'C09',
+    'model_checking',
+    'Every script of error estimates (6-letter alphabet around the tolerance; quick: 4 letters) and direct restart requests with at most 2-4 non-default answers is run through the real '
+    'Adaptivity / BasicRestarting / SpreadStepSizes / limiter controllers for every configuration of a ball (P, max_restarts, restart_from_first_step, crash, Tend distance, '
+    'limiter settings, K); restart position, one step size per block, retry budget, acceptance below tolerance, proposal formula with clipping and smaller retry are checked on each.',
+    'Trusted: scripted estimator = real Adaptivity with only get_local_error_estimate replaced; lenient (block-level) reading of the retry budget. Real adaptive estimators on real problems are not covered by this check.',
+    'deviation-bounded exhaustive exploration of environment scripts on the real controller, clause checks on the recorded history',
+    'E1',
+    'DESIGN.md section 2 C09',
+)
+check(
+    'C14',
+    'model_checking',
+    'All histories of the restart / step-size harness, of the convergence-pattern harness and with partially filled last blocks are run with every shipped logging hook; '
+    'after filter_stats(recomputed=False) the records of each type must be exactly those of the accepted steps (time keys and values from the independent recorder, work counted by the problem itself). '
+    'The filter / sort helpers are compared with a brute-force reference on every statistics dictionary with <=2-3 entries over a two-valued key alphabet.',
+    'Trusted: recorder hook and the problem-side call counter.',
+    'deviation-bounded exhaustive exploration of histories + exhaustive small-scope enumeration of helper inputs',
+    'E1',
+    'DESIGN.md section 2 C14',
+)
+check(
+    'C19',
+    'model_checking',
+    'Every operation sequence up to depth 3 (thorough 4) over {new controller of 7-9 configurations, run, split run on the same / a fresh controller at each block boundary} with at most two live '
+    'controllers is executed; the digest (solution bits and every non-timing statistics entry) of each logical run must equal that of the same run alone in a fresh subprocess.',
+    'Trusted: sha1 digests; continuation time taken from the last logged step. Re-run / split clauses only for fixed-step configurations as the property says.',
+    'breadth-first exhaustive enumeration of operation sequences, differential oracle against a fresh process',
+    'E1',
+    'DESIGN.md section 2 C19',
+)
+check(
+    'C17',
+    'exploration',
+    'Every operator of the Chebyshev-T / ultraspherical / Fourier helpers is applied to every basis vector for N in 1..64 (quick: a subset), derivative orders 1..3, four intervals where the operator carries the map, '
+    'and compared with exact polynomial / Fourier calculus; all 9 pairs and 27 triples of bases for the N-D operators.',
+    'Trusted: numpy.polynomial.chebyshev and exact Fraction power-basis arithmetic. GPU, FFTW and mpi4py-fft back ends are out of reach.',
+    'basis-exhaustive enumeration over a complete lattice against an exact-arithmetic reference',
+    'E2',
+    'DESIGN.md section 2 C17',
+)
+check(
+    'C18',
+    'exploration',
+    'Every stencil of the lattice derivative 1..4 x order 1..8 x layout plus every user offset subset of {-4..4} is checked on all moments in exact rational arithmetic; every matrix of the size / boundary / treatment lattice is '
+    'judged row by row on integer monomials up to its exactness degree, periodic matrices entry by entry against circulant references, dim 2,3 against Kronecker sums.',
+    'Trusted: fractions.Fraction arithmetic. cupy back end not covered.',
+    'exhaustive lattice enumeration against an exact rational-arithmetic reference',
+    'E2',
+    'DESIGN.md section 2 C18',
+)
+
+
+check(
+    'C01',
+    'exploration',
+    'The real controller_nonMPI.run is executed on every configuration within Hamming distance 1 (quick) / 2 (thorough) of four base configurations over 19 dimensions (sweeper x problem, all 53 QI names, node family, '
+    'quadrature type, M, levels and coarsening kind, P, predictor, coupling, all_to_done, nsweeps, residual type, initial guess, finter, end-point mode, dt scale); every step whose full defect (recomputed by the oracle) '
+    'is below restol is compared with the dense collocation solution of an independent oracle (own Q by exact Lagrange integration, own operators).',
+    'Trusted: vf/oracle/colloc.py (exact rational Lagrange integration, dense numpy solves). Decided on the deviation balls only, not on the full product; steps that did not reach restol are counted as premise not met.',
+    'exhaustive enumeration of a bounded configuration ball against an independent dense collocation oracle',
+    'E2',
+    'DESIGN.md section 2 C01',
+)
+check(
+    'C02',
+    'exploration',
+    'For every shipped sweeper class x preconditioner name x node set x dt x linear operator x tau x end-point mode x sweep index, the complete iteration matrix of one real update_nodes / integrate / compute_end_point call is extracted by basis '
+    'inputs (unit vectors in every node/dof slot of U, u0, tau, the zero input and additivity probes) and compared with the algebraic iteration assembled by an independent dense oracle; stored preconditioner matrices are compared with zero-padded qmat coefficients.',
+    'Trusted: vf/oracle/sdc.py. The sweep is affine in its inputs (checked by the additivity probes), so the basis decides it for all node values.',
+    'basis-exhaustive enumeration over a configuration lattice against an independent dense-matrix reference model',
+    'E2',
+    'DESIGN.md section 2 C02',
+)
+check(
+    'C04',
+    'exploration',
+    'For every node family x quadrature type x M x preconditioner name x iteration count k x end-point mode the real one-step map is evaluated on a circle of complex z (lambda vector) and all Taylor coefficients are extracted by DFT and compared with 1/j! up to the order the '
+    'oracle iteration delivers (>= min(k,p) for first-order-consistent preconditioners); converged runs against the collocation stability function; every Runge-Kutta class against its documented order and embedded order.',
+    'Trusted: vf/oracle/sdc.py; Cauchy-estimate tolerances. A polynomial identity in z up to the claimed degree is decided by its coefficients.',
+    'exhaustive lattice enumeration; all Taylor coefficients of the real step function against an exact reference',
+    'E2',
+    'DESIGN.md section 2 C04',
+)
+check(
+    'C05',
+    'exploration',
+    'All 6 node types x 4 quadrature types x M 1..8 (thorough 1..16) x 8 intervals: every weight, Qmat and Smat entry against exact Lagrange integrals (mpmath, 60 digits) through the reported nodes, moments up to the reported order, end-point flags, '
+    'padding, cumulative-sum identities, node spacings and affine covariance.',
+    'Trusted: mpmath. Tolerances are rounding of representable data (node ulp sensitivities and the Lebesgue function of the reported nodes).',
+    'exhaustive lattice enumeration against an extended-precision reference',
+    'E2',
+    'DESIGN.md section 2 C05',
+)
+check(
+    'C10',
+    'exploration',
+    'Real multi-level steps are loaded with the oracle collocation solution and driven through the real IT_DOWN / IT_COARSE / IT_UP / IT_FINE stages (fixed point), restricted on basis inputs (coarse defect = restricted fine defect) and probed for their one-iteration map '
+    '(= oracle multigrid-in-time matrix) over node-set pairs/triples, all Lagrange transfer orders, FFT and identity transfers, 14 linear and nonlinear problems, 2 and 3 levels, both prolongation modes.',
+    'Trusted: vf/oracle/colloc.py (own Newton for nonlinear problems with transcribed right-hand sides). BaseTransfer_mass not covered (needs FEniCS).',
+    'basis-exhaustive enumeration over a configuration lattice against an independent reference model',
+    'E2',
+    'DESIGN.md section 2 C10',
+)
+check(
+    'C11',
+    'exploration',
+    'Every ordered node-count pair 1..9 in all 24 families plus cross-family pairs (Pcoll/Rcoll entrywise vs exact Lagrange matrices), every 1D interpolation/restriction matrix for periodic 2^k and Dirichlet 2^k-1 grids, orders 2..8, nested on/off, in exact Fraction arithmetic, '
+    'mesh / imex_mesh / comp2_mesh transfers on every unit vector vs Kronecker products, FFT transfers on every mode and unit vector, NoCoarse identities.',
+    'Trusted: fractions.Fraction / mpmath oracles in vf/oracle/interp.py. Refinement ratio 2 only; ncomp problems through stand-ins (mpi4py-fft absent).',
+    'exhaustive lattice and basis enumeration against an exact-arithmetic reference',
+    'E2',
+    'DESIGN.md section 2 C11',
+)
+
+
 def main():
     props = [json.loads(l)['id'] for l in open(os.path.join(ROOT, 'properties.jsonl'))]
     man = {
@@ -55,11 +208,11 @@ def main():
             {'name': 'E3', 'path': 'vf/engine/simmpi.py', 'serves_properties': ['C08'], 'kind_free_text': 'simulated mpi4py with baton scheduler; enumerates rank interleavings up to a preemption bound'},
             {'name': 'E4', 'path': 'vf/engine/crash.py', 'serves_properties': ['C16'], 'kind_free_text': 'crash-prefix enumerator over recorded write histories'},
         ],
-        'checks': [CHECKS[p] for p in props if p in CHECKS],
+        'checks': [CHECKS[p] for p in props if p in CHECKS and p not in HOLD],
         'not_applicable': [
             {'property_id': p, 'reason': NOT_YET.get(p, 'check not built yet in this session (planned, see DESIGN.md section 6); not claimed until it exists')}
             for p in props
-            if p not in CHECKS
+            if p not in CHECKS or p in HOLD
         ],
         'notes': 'All checks run the code in /repo directly (no build step). ./check <ID> --tier quick|thorough; ./check <ID> --replay <file>.',
     }
